@@ -104,13 +104,24 @@ elif mode == 'files':
             conn.commit(); conn.close()
             hdb = sha(dbp)
             conn = sqlite3.connect(dbp)
+            # every other case: the caller has uncommitted work of its own on the connection it lends to RBQL; a read-only query must
+            # neither commit it nor roll it back (the transaction state of the connection is the caller's)
+            pending = len(out) % 2 == 1
+            if pending:
+                conn.execute("CREATE TABLE IF NOT EXISTS callers_own (x TEXT)")
+                conn.commit()
+                hdb = sha(dbp)
+                conn.execute("INSERT INTO callers_own VALUES ('pending work')")
             err2 = None
             try:
                 rbql_sqlite.query_sqlite_to_csv(c['py'], conn, 't', outp, ',', 'quoted', 'utf-8', [])
             except Exception as e:
                 err2 = type(e).__name__
+            txn_kept = (not pending) or (conn.in_transaction and conn.execute('select count(*) from callers_own').fetchone()[0] == 1)
+            if pending:
+                conn.rollback()
             conn.close()
-            out.append({'csv_same': csv_same, 'db_same': sha(dbp) == hdb, 'err': err, 'err_sqlite': err2})
+            out.append({'csv_same': csv_same, 'db_same': sha(dbp) == hdb, 'caller_transaction_untouched': txn_kept, 'err': err, 'err_sqlite': err2})
     finally:
         shutil.rmtree(d, ignore_errors=True)
 elif mode == 'hostile':
@@ -303,8 +314,9 @@ def run(res, tier, seed):
             res.violations.append({'property': 'C06', 'impl': 'py', 'why': 'the pandas dataframe differs after the query', 'query_py': c['py'], 'A': c['A'], 'case_key': 'C06|pandas|' + c['py'] + json.dumps(c['A'])})
             break
     for o in fout:
-        if not o['csv_same'] or not o['db_same']:
-            res.violations.append({'property': 'C06', 'impl': 'py', 'why': 'input/join CSV file or sqlite database file changed', 'observed': o, 'case_key': 'C06|files'})
+        if not o['csv_same'] or not o['db_same'] or not o.get('caller_transaction_untouched', True):
+            res.violations.append({'property': 'C06', 'impl': 'py', 'why': 'input/join CSV file or sqlite database file changed, or the uncommitted work of the caller on the lent sqlite connection was committed / rolled back',
+                                   'observed': o, 'case_key': 'C06|files'})
             break
     res.count('pandas_cases', len(pout))
     res.count('file_cases', len(fout))
